@@ -166,7 +166,7 @@ def sweep(run, cnames, limit):
                 break
         if not batch:
             continue
-        outs = replay.native_calls(run.program.repo, [dict(func=cname, args=a) for a in batch])
+        outs = replay.native_calls(run.program.native_root(), [dict(func=cname, args=a) for a in batch])
         tv_n = 0
         for jargs, o, case in zip(batch, outs, batch_cases):
             out['evaluations'] += 1
